@@ -167,20 +167,26 @@ def run(check, repo: Repo) -> None:
     _, init = repo.func(f"{PU}:SimpleBatcher.__init__")
     cfg = CFG(init)
     stores = {"train_indices": [], "val_indices": []}
+    values = {}  # (node id, attr) → stored expression (element-wise for tuple assignments)
     for n in cfg.nodes:
         if n.kind == "stmt" and isinstance(n.stmt, ast.Assign):
             for t in n.stmt.targets:
-                if isinstance(t, ast.Attribute) and dotted(t.value) == "self" and t.attr in stores:
-                    stores[t.attr].append(n)
+                elts = [(t, n.stmt.value)]
+                if isinstance(t, ast.Tuple) and isinstance(n.stmt.value, ast.Tuple) and len(t.elts) == len(n.stmt.value.elts):
+                    elts = list(zip(t.elts, n.stmt.value.elts))
+                for te, ve in elts:
+                    if isinstance(te, ast.Attribute) and dotted(te.value) == "self" and te.attr in stores:
+                        stores[te.attr].append(n)
+                        values[(n.id, te.attr)] = ve
     pairs = []
     for tn in stores["train_indices"]:
         for vn in stores["val_indices"]:
             # same straight-line region: same set of dominating branch nodes
             if [d for d in cfg.dominators_of(tn.id) if cfg.nodes[d].kind == "branch"] == [d for d in cfg.dominators_of(vn.id) if cfg.nodes[d].kind == "branch"]:
                 pairs.append((tn, vn))
-    check.floor("train/val store pairs", len(pairs), 5)
+    check.floor("train/val store pairs", len(pairs), 4)
     for tn, vn in pairs:
-        tv, vv = tn.stmt.value, vn.stmt.value
+        tv, vv = values[(tn.id, "train_indices")], values[(vn.id, "val_indices")]
         guards = " ∧ ".join(f"{'' if p else '¬'}{unparse(t)[:30]}" for t, p in reversed(cfg.guards_of(tn.id)))
         label = f"SimpleBatcher.__init__[{guards}]"
         user = any("train_indices is not None" in unparse(t) or "val_indices is not None" in unparse(t) for t, p in cfg.guards_of(tn.id) if p)
@@ -242,6 +248,33 @@ def run(check, repo: Repo) -> None:
     check.decide(not late_reset, "C09-R4", "Ptychography.reconstruct: the batcher is built after the reset has (re)installed the generator", "", pmod.line(bc[0]),
                  fail_detail=f"self.reset_recon() (line {reccfg.nodes[late_reset[0]].lineno if late_reset else '?'}) runs after SimpleBatcher(rng=self.rng) was built: the batcher keeps the "
                              f"previous, already advanced generator and the shuffle order after a reset no longer restarts from the seed")
+    # a reset re-creates the schedulers WITH this call's number of iterations (reset_optimizer() rebuilds them without it, so schedulers whose
+    # parameters derive from num_iter — exp with only `factor` — would differ from the first run)
+    ss = [c for c in calls_in(rec) if (call_name(c) or "") == "self.set_schedulers"]
+    if len(ss) != 1:
+        raise AnalysisError("Ptychography.reconstruct: set_schedulers call not found")
+    sn = reccfg.node_containing(ss[0])
+    guards = [(t, p) for t, p in reccfg.guards_of(sn[0])] if sn else []
+    rparam = "reset" if "reset" in func_params(rec) else None
+    implied = False
+    why = ""
+    if not guards:
+        implied, why = True, "unconditional"
+    else:
+        for t, pol in guards:
+            if pol and rparam in names_in(t):
+                implied, why = True, f"guarded by `{unparse(t)}`"
+            elif pol and isinstance(t, ast.Name):
+                # a flag: it must be initialised from `reset` (or True) and only ever be raised afterwards
+                dd = [d for d in definitions(rec, t.id) if isinstance(d, ast.AST)]
+                init = [d for d in dd if rparam in names_in(d) or is_const(d, True)]
+                lowered = [unparse(d) for d in dd if is_const(d, False)]
+                implied = bool(init) and not lowered
+                why = f"flag `{t.id}` defined as {[unparse(d) for d in dd]}"
+    nit = kwarg(ss[0], "num_iter") or (ss[0].args[1] if len(ss[0].args) > 1 else None)
+    check.decide(implied and nit is not None and unparse(nit) == "num_iters", "C09-R4", "Ptychography.reconstruct: a reset implies set_schedulers(…, num_iter=num_iters) before the epoch loop", why,
+                 pmod.line(ss[0]), fail_detail=f"{why}: with reset=True the schedulers are not re-created with this call's num_iters — the learning-rate (and loss) history of the same run after "
+                                               f"a reset differs from the first run")
     # reset path
     bmod, rr = repo.func(f"{PB}:PtychographyBase.reset_recon")
     rcfg = CFG(rr)
